@@ -150,8 +150,10 @@ pub fn shapes() -> Vec<Shape> {
 pub fn shapes_with(content: u8) -> Vec<Shape> {
     let mut out = Vec::new();
     let lens = [0usize, 1, 8, 63, 64, 65, 66, 67, 254, 255, 256, 257, 318, 319, 320, 321, 7609, 7610, 65535];
-    let d64s = [0u8, 1, 2, 189, 190, 191, 192, 253, 254, 255];
     for len in lens {
+        // data[64] = announced key-handle length; around the consistent value for the lengths at
+        // the short / extended encoding boundary
+        let d64s: Vec<u8> = if (254..=257).contains(&len) { vec![0, 1, 189, 190, 191, 192, 255] } else { vec![0, 1, 2, 253, 254, 255] };
         for d64 in d64s {
             if len <= 64 && d64 != 0 {
                 continue; // data[64] does not exist: one shape per short length
